@@ -457,6 +457,10 @@ class RaftNode(Entity):
 
             if existing and existing.term != entry_term:
                 self._log.truncate_from(idx)
+                # Requests whose entries were just removed can no longer commit here
+                self._pending_futures = {
+                    i: f for i, f in self._pending_futures.items() if i < idx
+                }
                 self._log.append(entry_term, entry_dict["command"])
             elif not existing:
                 self._log.append(entry_term, entry_dict["command"])
